@@ -231,7 +231,7 @@ func (r *priRun) exec(b pBatch) *pObs {
 			}()
 			select {
 			case <-midDone:
-			case <-time.After(time.Second):
+			case <-time.After(250 * time.Millisecond):
 				midSeen = false
 				releaseOnce()
 				select {
